@@ -204,23 +204,3 @@ pub fn validity(r: &LayoutRules, pi: &PublicInput, log_trace: &BigUint) -> Valid
     Validity::Valid
 }
 
-/// A `PublicInput` built through its serde form (robust against fields added to the struct that serde skips or
-/// defaults - a struct literal would stop compiling).
-#[allow(clippy::too_many_arguments)]
-pub fn make_public_input(
-    log_n_steps: Felt, range_check_min: Felt, range_check_max: Felt, layout: Felt, dynamic_params: Option<serde_json::Value>,
-    segments: &[(Felt, Felt)], padding: (Felt, Felt), main_page: &[(Felt, Felt)], headers: &[(Felt, Felt, Felt, Felt)],
-) -> PublicInput {
-    let h = |f: &Felt| serde_json::Value::String(format!("{:#x}", f));
-    let mut v = serde_json::json!({
-        "log_n_steps": h(&log_n_steps), "range_check_min": h(&range_check_min), "range_check_max": h(&range_check_max), "layout": h(&layout),
-        "segments": segments.iter().map(|(b, s)| serde_json::json!({"begin_addr": h(b), "stop_ptr": h(s)})).collect::<Vec<_>>(),
-        "padding_addr": h(&padding.0), "padding_value": h(&padding.1),
-        "main_page": main_page.iter().map(|(a, x)| serde_json::json!({"address": h(a), "value": h(x)})).collect::<Vec<_>>(),
-        "continuous_page_headers": headers.iter().map(|(a, n, hs, p)| serde_json::json!({"start_address": h(a), "size": h(n), "hash": h(hs), "prod": h(p)})).collect::<Vec<_>>(),
-    });
-    if let Some(d) = dynamic_params {
-        v["dynamic_params"] = d;
-    }
-    serde_json::from_value(v).expect("public input from its serde form")
-}
